@@ -837,7 +837,7 @@ class Engine:
                         if m is None:
                             return None
                         other = b if x is a else a
-                        return lambda a_, b_, st, m=m, x=x, other=other: m(self, st, [x, other], {})
+                        return lambda a_, b_, st, m=m, x=x, other=other: self.apply_model(m, [x, other], {}, st)
         return None
 
     def identical(self, a, b):
